@@ -181,7 +181,7 @@ def _bounds(ctx):
         "g_hs2": dict(MaxEdits=2, Ranks="RanksOne"),                                            # one key order, two edits
         "g_stream": dict(MaxFrames=2, MaxReads=2, MaxEdits=1, W="WOneWayQ", R="ROneWayQ"),      # both key orders
         "g_full": dict(MaxFrames=2, MaxReads=1, MaxEdits=1),
-        "sim": 1000, "random": 2000, "random_big": 150,
+        "sim": 800, "random": 1500, "random_big": 100,
     }
 
 
